@@ -28,7 +28,7 @@ import (
 
 func TestMain(m *testing.M) {
 	document.SetGlobalLevel(document.LogLevelSilent)
-	kit.TestMain(m, 700, 7000)
+	kit.TestMain(m, 700, 10000)
 }
 
 // Case: a document built by a history of API calls, then Cycles save/open cycles.
